@@ -359,7 +359,8 @@ class Interp:
         if x is None or isinstance(x, (bool, int, float, str, Sym, PObj, PList, PDict, PSet, JsonText, Foreign,
                                       BoundMethod, Closure, BuiltinMethod, Opaque, DictView, SuperProxy)):
             return x
-        if isinstance(x, NATIVE_OK):
+        if isinstance(x, NATIVE_OK) or isinstance(x, (AnyVal, LockVal)) or hasattr(x, 'pyvc_getattr') \
+                or hasattr(x, '__pyvc_iter__'):
             return x
         c = self.ctx.lift_cache
         if id(x) in c:
@@ -381,6 +382,10 @@ class Interp:
 
     # =================================================================================== truth / equality
     def truthy(self, v):
+        if hasattr(v, '__pyvc_len__') and not isinstance(v, PObj):
+            return truthy_scalar(v.__pyvc_len__(self)) if is_sym(v.__pyvc_len__(self)) else v.__pyvc_len__(self) > 0
+        if hasattr(v, 'pyvc_getattr') and not isinstance(v, PObj):
+            return True
         if isinstance(v, PObj):
             m = self.find_method(v.cls, '__bool__') or None
             if m is not None:
@@ -613,6 +618,8 @@ class Interp:
             return AnyVal(f'{obj.label}.{name}')
         if isinstance(obj, LockVal):
             return BuiltinMethod(obj, name)
+        if hasattr(obj, 'pyvc_getattr'):
+            return obj.pyvc_getattr(self, name)
         if isinstance(obj, PObj):
             return self.obj_getattr(obj, name)
         if isinstance(obj, SuperProxy):
@@ -729,6 +736,8 @@ class Interp:
             return Opaque()
         if isinstance(fn, AnyVal):
             return self.any_op(f'{fn.label}()')
+        if hasattr(fn, 'pyvc_call'):
+            return fn.pyvc_call(self, list(args), kwargs)
         if isinstance(fn, types.MethodType):
             return self.call(fn.__func__, [self.lift(fn.__self__)] + list(args), kwargs)
         if isinstance(fn, (staticmethod, classmethod)):
@@ -759,7 +768,15 @@ class Interp:
 
     def instantiate(self, cls, args, kwargs):
         if issubclass(cls, BaseException):
-            # exception constructors: message formatting is assumed total, __init__ bodies are not executed
+            # exception constructors: message formatting is assumed total, __init__ bodies are not executed -- but the
+            # arguments are bound against the real signature (a missing mandatory keyword is a TypeError at run time)
+            init, owner = self.class_lookup(cls, '__init__')
+            if isinstance(init, types.FunctionType) and (init.__module__ or '').startswith('fim'):
+                info = loader.func_info(init)
+                fr = Frame(init.__globals__, info['defcls'], None, init)
+                self.bind_args(info['node'].args, fr, [None] + list(args), kwargs,
+                               [self.lift(d) for d in (init.__defaults__ or ())],
+                               {k: self.lift(v) for k, v in (init.__kwdefaults__ or {}).items()}, cls.__name__)
             return self.make_exc(cls, args)
         if issubclass(cls, enum.Enum):
             if any(is_sym(a) for a in args):
